@@ -2,7 +2,8 @@
    re-extracted from the current source by harness/xlate/lockir.go, together
    with the set of sites the harness reported (through the oracle channel,
    where they are matched against the known findings) as not disciplined.
-   The obligation: that set is exactly the verified checker's verdict. *)
+   The obligation: that set is exactly the verified checker's verdict; the same
+   for the write sites the check-then-act analysis (`stale_violations`) flags. *)
 From Coq Require Import List NArith Bool.
 Import ListNotations.
 From V Require Import Base.Bytes.
@@ -10,9 +11,9 @@ From V Require Export Export.LockIR.
 Local Open Scope N_scope.
 
 Inductive c11case :=
-| CFunc (id : N) (fn : N) (b : list stmt) (reported : list N).
+| CFunc (id : N) (fn : N) (b : list stmt) (reported : list N) (reported_stale : list N).
 
-Definition c11case_id (c : c11case) : N := match c with CFunc i _ _ _ => i end.
+Definition c11case_id (c : c11case) : N := match c with CFunc i _ _ _ _ => i end.
 
 Definition memN (x : N) (l : list N) : bool := existsb (N.eqb x) l.
 Definition same_set (a b : list N) : bool :=
@@ -20,7 +21,9 @@ Definition same_set (a b : list N) : bool :=
 
 Definition c11case_ok (c : c11case) : bool :=
   match c with
-  | CFunc _ _ b rep => same_set (violations mtail_spec (lblock_of b)) rep
+  | CFunc _ _ b rep reps =>
+      same_set (violations mtail_spec (lblock_of b)) rep &&
+      same_set (stale_violations mtail_spec (lblock_of b)) reps
   end.
 
 Definition mismatches (l : list c11case) : list N := failing c11case_ok c11case_id l.
